@@ -4,6 +4,18 @@ NOTES = ("Every check rebuilds the harness from /repo's working tree (go build -
          "then runs the correspondence between the Lean model driver and the real code. See DESIGN.md.")
 NOT_APPLICABLE = {}
 CHECKS = {
+ "C07": {
+  "text": "Over tables REGENERATED every run (the letter list, the plural format, the linked engine's keyword table) Lean proves for ALL indices: variable names pairwise distinct, never a keyword, their plurals never a keyword nor a variable name; generated identifiers gen_<hint>_<n> are injective in n for all hints; the package name is a valid identifier for every profile name; clause bindings are distinct (C02.bindings_distinct). The scaling matrix (every constraint kind x 8 path shapes, width to 40/60 quantified constraints, depth to 8/30, up to 100 validations, random formulas, odd profile names) must compile.",
+  "note": "Partial: that the engine accepts the rest of the emitted code (safety, typing) is not modelled; the matrix is the search for a failing profile. Trusted: Lean kernel; table extractors.",
+  "technique": "Lean 4 proof over regenerated identifier/keyword tables (unbounded in the index) + scaling compile matrix as search",
+  "ref": "DESIGN.md 7/C07",
+ },
+ "C15": {
+  "text": "Lean proves expand_rename (an IRI written with any prefix bound to the same namespace expands identically), expand_total_on_grammar (the expander accepts every IRI the path grammar accepts - tied to the regenerated grammar table), and reuses the order-independence theorems (C01 operand order and spelling independence, C03 level membership, C06 insertion order, C07 distinct variables). Tied by meaning-preserving rewrites of random profiles: all mappings/lists shuffled, conjunctions merged into one map, block/flow style, quoting, comments, indentation, renamed and mixed prefixes - same results as the canonical spelling and as the model.",
+  "note": "Partial: YAML surface syntax is yaml.v3's job: modelled as 'same node tree', tied only by the metamorphic runs.",
+  "technique": "Lean 4 proof (IRI expander model; corollaries of C01/C03/C06/C07) + metamorphic differential correspondence over YAML rewrites",
+  "ref": "DESIGN.md 7/C15",
+ },
  "C05": {
   "text": "Lean theorem norm_ser: for every graph and every serialisation plan (node and key order, bare value vs one-element array, @type string vs array, {@value} vs scalar, repeated values and classes, nodes embedded to any depth carrying any subset of their triples, nodes split over several occurrences, top-level array / @graph / single object) the normalisation model yields an index set-equal to the graph's canonical index; corollaries reserialisation_invariant, equiv_targets and reserialisation_same_reads (every target_class / find / property read of the policy sees the same set). The model is tied to the real Index(Normalize(.)) on generated serialisations; @context/@base documents are tied metamorphically (same index, same verdicts).",
   "note": "Partial: json-gold outside the modelled fragment (contexts, @list, @language, typed literals, @reverse, blank nodes) is not modelled. Trusted: Lean kernel; the JSON-to-Js conversion in the driver.",
